@@ -78,7 +78,7 @@ class MFDeviceSet(DeviceSet):
     for constraint in device_constraints:
       constraint['fun'] = lambda s, f=constraint['fun']: f(s.reshape(shape).sum(axis=0))
       if 'jac' in constraint:
-        constraint['jac'] = lambda s, f=constraint['jac']: np.repeat(f(s.reshape(shape).sum(axis=0)), shape[0], axis=0).reshape(flat_shape)
+        constraint['jac'] = lambda s, f=constraint['jac']: np.tile(np.array(f(s.reshape(shape).sum(axis=0))).reshape(-1), shape[0]).reshape(flat_shape)
       constraints += [constraint]
     return constraints
 
